@@ -192,7 +192,12 @@ func main() {
 					code = 2
 					return
 				}
-				panic(r)
+				if os.Getenv("GOVC_PANIC") != "" {
+					panic(r)
+				}
+				res.ToolError = fmt.Sprintf("engine panic: %v", r)
+				fmt.Println("TOOL ERROR:", res.ToolError)
+				code = 2
 			}
 		}()
 		e.verifyUnit(fn, *assume, *setv)
